@@ -39,6 +39,54 @@ func (ex *Exec) initIntrinsics() {
 
 	// ---- fmt / log: formatting is never the subject ----
 	in["fmt.Sprintf"] = func(ex *Exec, st *State, args []Value, site ssa.CallInstruction) Value {
+		// concrete format with only %s / %d verbs and concrete string / integer arguments: the real text
+		// (map keys such as TupleColumnName are built this way); anything else is a placeholder
+		if f, ok := args[0].(StrV); ok && f.Conc && len(args) == 2 {
+			if sl, ok := args[1].(SliceV); ok && sl.Len.IsConst() && sl.Obj != 0 {
+				var vals []interface{}
+				okAll := true
+				for _, v := range st.sliceCells(sl, int(sl.Len.V)) {
+					iv, isI := v.(IfaceV)
+					if !isI || iv.T == nil {
+						okAll = false
+						break
+					}
+					switch x := iv.V.(type) {
+					case StrV:
+						if !x.Conc {
+							okAll = false
+						}
+						vals = append(vals, x.S)
+					case *Term:
+						b, isB := iv.T.Underlying().(*types.Basic)
+						if !x.IsConst() || !isB || b.Info()&types.IsInteger == 0 || x.W > 64 {
+							okAll = false
+							break
+						}
+						if b.Info()&types.IsUnsigned != 0 {
+							vals = append(vals, x.V)
+						} else {
+							sh := uint(64 - x.W)
+							vals = append(vals, int64(x.V<<sh)>>sh)
+						}
+					default:
+						okAll = false
+					}
+				}
+				plain := true
+				for i := 0; i < len(f.S); i++ {
+					if f.S[i] == '%' {
+						if i+1 >= len(f.S) || (f.S[i+1] != 's' && f.S[i+1] != 'd' && f.S[i+1] != '%') {
+							plain = false
+						}
+						i++
+					}
+				}
+				if okAll && plain {
+					return conStr(fmt.Sprintf(f.S, vals...))
+				}
+			}
+		}
 		return conStr(fmtPlaceholder(args))
 	}
 	in["fmt.Sprint"] = func(ex *Exec, st *State, args []Value, site ssa.CallInstruction) Value { return conStr("‹sprint›") }
